@@ -71,7 +71,7 @@ Match ==
   /\ LET n == Focus IN
      IF Ev.st.up
      THEN /\ up[n]
-          /\ Ev.st.parked <=> disp[n].st = "pub"
+          /\ Ev.st.parked => disp[n].st = "pub"    \* (the flag is read a moment after the stream)
           /\ Running(n) => lp[n] = Ev.st.lp
      ELSE Ev.a = "Crash" => ~up[n]
   /\ TLCSet(2, TLCGet(2) \cup {l})
